@@ -356,6 +356,18 @@ def analysis_rows(ix, k, mname, xs, emu_cls=_Emu, protocol_call=False):
             nk = _norm_key(key, finals, st.written)
             if nk is not None and nk not in shared:
                 shared[nk] = b
+        # facts about the value an attribute holds at the end are facts about that attribute for the code generator
+        for ap, val in st.attrs.items():
+            if not re.fullmatch(r'self\.\w+', ap) or not isinstance(val, E.U) or val.path == ap:
+                continue
+            T = val.path
+            if re.fullmatch(r'[A-Za-z_][\w.]*', T) and not T.startswith('self.'):
+                shared.setdefault('%s Is %s' % (ap, T.rsplit('.', 1)[-1]), True)       # bound to a module-level singleton (self.type = py_object_type)
+            if not T.startswith('self.'):
+                continue               # the result of a helper call: what the method found out about it stays a private matter of the method (an opaque test)
+            for key, b in st.assume.items():
+                if key.startswith(T) and key[len(T):len(T) + 1] in ('.', ' ', '['):
+                    shared.setdefault(ap + key[len(T):], b)
         for x in xs:
             # an operand the method converted to a Python object has a Python object type afterwards, whatever its type was before
             if finals.get(x) and re.search(r'\.coerce_to_pyobject%s%s$' % (_CALL, _TP_CHAIN), finals[x]):
@@ -376,10 +388,32 @@ def type_table2(ix):
     base = P.type_table(ix)
     m = ix.mod('PyrexTypes')
     out = {}
+    # abstract bases (CPointerBaseType ...) describe no type: only classes the compiler uses as a value somewhere (instantiation `X(...)`, `type_class = X`) count -
+    # a mention in a `class` header or in an isinstance() test is not a use
+    used = set()
+    pat = re.compile(r'(?<![\w])(%s)(?![\w.])' % '|'.join(sorted(map(re.escape, base))))
+    for nm, mm in ix.modules.items():
+        if not nm.startswith('Cython.Compiler.'):
+            continue
+        for line in mm.src.split('\n'):
+            code = line.split('#', 1)[0]
+            if code.lstrip().startswith('class ') or 'isinstance(' in code or 'issubclass(' in code or 'super(' in code:
+                continue
+            for mt in pat.finditer(code):
+                used.add(mt.group(1))
+    if len(used) < 15:
+        raise AnalysisError('C20-REPASTE: only %d PyrexTypes classes are used as values' % len(used))
     for name, (flags, has_signed) in base.items():
+        if name not in used:
+            continue
         free = set()
         for k in ix.mro(m.classes[name]):
             free |= {a for a in k.self_attrs if a.startswith('is_')}
+            tab = k.attrs.get('_builtin_type_flag_mapping')        # BuiltinObjectType: flags switched on per builtin type name with setattr()
+            if tab is not None:
+                for n in ast.walk(tab):
+                    if isinstance(n, ast.Constant) and isinstance(n.value, str) and n.value.startswith('is_'):
+                        free.add(n.value)
         out[name] = (flags, has_signed, free)
     return out
 
